@@ -82,8 +82,8 @@ def histories(tier):
     seen = set()
     for p in prefixes:
         for t in tails:
-            if len(p) >= 5 and len(t) > 2:
-                continue        # the long (churned) prefixes get tails of <= 2 operations
+            if len(p) > 2 and len(t) > 2:
+                continue        # only the two shortest prefixes get tails of 3 operations
             h = p + t
             if valid(h) and tuple(h) not in seen:
                 # drop histories whose tail is only no-ops on an absent table
@@ -158,7 +158,9 @@ def run(tier, seed):
                      f"(data files every {4 if tier == 'quick' else 1} bytes); recovery + post script + second reopen; crash points of the recovery itself one level deep for "
                      f"{'all' if tier == 'thorough' else 'every 8th'} histories at write boundaries. a case = (history, crash state group); non-trivial = the write in flight is torn (neither empty nor complete)", seed)
     # histories with a delete are recovered under both post-recovery scripts
-    runs = [(h, POST) for h in hs] + [(h, POST_B) for h in hs if "D" in h or "DA" in h]
+    # (quick: every history with a delete; thorough: those whose last or second-to-last operation is a delete)
+    with_b = [h for h in hs if ("D" in h or "DA" in h)] if tier == "quick" else [h for h in hs if any(o in ("D", "DA") for o in h[-2:])]
+    runs = [(h, POST) for h in hs] + [(h, POST_B) for h in with_b]
     jobs = [job(h, tier, i, None if ps is POST else ps) for i, (h, ps) in enumerate(runs)]
     res = runner.run_many("crash", jobs, timeout=3600, progress=20)
     tot_states = tot_nested = tot_points = tot_torn = 0
